@@ -110,16 +110,36 @@ def gen_query(rng, with_keyed):
         where = " where " + pred(rng, icols)
         feats.append("where")
     sub = rng.random()
-    if sub < 0.12:
+    if sub < 0.2:
         other = rng.choice([t for t in TABLES if t not in tabs] or list(TABLES))
         oc = int_cols([other])
-        kind = rng.choice(["in", "exists", "not exists", "scalar"])
+        kind = rng.choice(["in", "exists", "exists", "not exists", "not exists", "scalar", "scalar-corr"])
+
+        def corr_pred():
+            """a correlated predicate over inner (`oc`) and outer (`icols`) columns: plain equality,
+            equality whose one side mixes outer and inner columns, non-equi comparison, and
+            conjunctions of those (the shapes that decide which join operator the planner picks)"""
+            forms = [
+                lambda: "%s = %s" % (rng.choice(oc), rng.choice(icols)),
+                lambda: "%s = (%s + %s)" % (rng.choice(icols), rng.choice(oc), rng.choice(icols)),
+                lambda: "(%s + %s) = %s" % (rng.choice(oc), rng.choice(icols), rng.choice(oc)),
+                lambda: "%s %s %s" % (rng.choice(oc), rng.choice(["<", ">", "<=", "<>"]), rng.choice(icols)),
+                lambda: "%s = %s and %s %s %s" % (rng.choice(oc), rng.choice(icols), rng.choice(oc), rng.choice(["<", ">", "<>"]), rng.choice(icols)),
+                lambda: "%s = (%s + %s) and %s > %s" % (rng.choice(icols), rng.choice(oc), rng.choice(icols), rng.choice(oc), rng.choice(icols)),
+                lambda: "%s = %s and %s > %d" % (rng.choice(oc), rng.choice(icols), rng.choice(oc), rng.choice([0, 1, 2])),
+            ]
+            return rng.choice(forms)()
         if kind == "in":
-            cond = "%s in (select %s from %s)" % (rng.choice(icols), rng.choice(oc), other)
+            cond = "%s in (select %s from %s%s)" % (rng.choice(icols), rng.choice(oc), other, (" where " + corr_pred()) if rng.random() < 0.3 else "")
         elif kind == "scalar":
             cond = "%s > (select count(*) from %s)" % (rng.choice(icols), other)
+        elif kind == "scalar-corr":
+            agg = rng.choice(["count(*)", "sum(%s)" % rng.choice(oc), "max(%s)" % rng.choice(oc)])
+            grp = (" group by %s" % rng.choice(oc)) if rng.random() < 0.4 else ""
+            eqc = rng.choice(oc)
+            cond = "%s %s (select %s from %s where %s = %s%s)" % (rng.choice(icols), rng.choice(["<", ">", "="]), agg, other, eqc, rng.choice(icols), (" group by %s" % eqc) if grp else "")
         else:
-            cond = "%s (select * from %s where %s = %s)" % (kind, other, rng.choice(oc), rng.choice(icols))
+            cond = "%s (select * from %s where %s)" % (kind, other, corr_pred())
         where = (where + " and " if where else " where ") + cond
         feats.append("subquery-" + kind.replace(" ", "-"))
     mode = rng.random()
